@@ -201,10 +201,29 @@ RCStep ==
 (* Controller.UponDecided: a commit signed by >= quorum signers *)
 IsCert(m) == m.type = "commit" /\ Len(m.signers) >= Q
 CertWF(m) == m.struct_ok /\ m.sig_ok /\ m.data_matches /\ m.round \in Rounds /\ m.value \in AllVals
+(* QBFT!RecvDecided(i) chooses round, value and signer set itself (\E over Rounds \X AllVals \X SUBSET Ops: 2 816
+   combinations for N = 4, 22 528 for N = 7 - measured 15 s per certificate event).  RecvDecidedAt is its body at the
+   LOGGED (r, v, S).  For N = 4 the model's own action is taken AND must agree with the instantiation (every
+   certificate event of a committee-4 trace checks the transcription); larger committees use the instantiation. *)
+RecvDecidedAt(i, r, v, S) ==
+    LET n == st[i] IN
+    /\ CertOK(S, r, v)
+    /\ IF S \subseteq Honest THEN NoByz ELSE UseByz("decided")
+    /\ ~n.decided \/ Card(S) > Card(n.dsigners)
+    /\ IF ~n.decided
+       THEN Apply(i, [n EXCEPT !.decided = TRUE, !.dval = v, !.round = r, !.dround = r, !.cround = r, !.cval = v, !.dsigners = S,
+                               !.comm = @ \cup {[signer |-> s, round |-> r, value |-> v] : s \in S}], {})
+       ELSE Apply(i, [n EXCEPT !.dsigners = S, !.cround = r, !.cval = v,
+                               !.comm = @ \cup {[signer |-> s, round |-> r, value |-> v] : s \in S}], {})
+    /\ act' = [name |-> "RecvDecided", to |-> i, round |-> r, value |-> v, signers |-> S, kind |-> "valid"]
+DecidedAction(r, v, S) ==
+    IF N <= 4 THEN /\ RecvDecided(Me) /\ act'.round = r /\ act'.value = v /\ act'.signers = S
+                   /\ RecvDecidedAt(Me, r, v, S)
+    ELSE RecvDecidedAt(Me, r, v, S)
 DecidedStep ==
     LET S == ToSet(M.signers)  n == st[Me]
     IN \/ /\ Ev.ok /\ CertWF(M)
-          /\ RecvDecided(Me) /\ act'.round = M.round /\ act'.value = M.value /\ act'.signers = S
+          /\ DecidedAction(M.round, M.value, S)
           /\ Same /\ PostOK /\ Len(Ev.out) = 0
           /\ Ev.reported = ~n.decided
        \/ /\ CertWF(M) /\ n.decided /\ Card(S) <= Card(n.dsigners) /\ ~Ev.reported /\ NoOp("smallerCertificate")
